@@ -1003,6 +1003,91 @@ def check_tracker_effects(rep: Report, ix) -> None:
     rep.extra["effect_analysis"] = {"functions visited": sorted(r for r, _ in eff.done), "user escapes": sorted(eff.user_escapes), "delegated": sorted(eff.delegated)}
 
 
+
+# ----------------------------------------------------------------------------
+# state carried from one stepper call to the next
+# ----------------------------------------------------------------------------
+CARRIED_KEYS = ("post_step_data",)
+
+
+def _info_key(e: ast.AST) -> str | None:
+    """`<x>.info["key"]` -> key"""
+    if isinstance(e, ast.Subscript) and isinstance(e.value, ast.Attribute) and e.value.attr == "info" and isinstance(e.slice, ast.Constant) and isinstance(e.slice.value, str):
+        return e.slice.value
+    return None
+
+
+def check_carried_state(rep: Report, ix) -> None:
+    """The controller calls the stepper once per tracker segment.  Data that survives between these
+    calls (the auxiliary data of the post-step hook) lives in `solver.info[...]`; every stepper wrapper
+    must read it from there *at each call* and write the updated value back, otherwise every segment
+    restarts from a stale value and the result depends on where trackers interrupt the run.
+    Rule: (a) no nested function may use a free variable that the enclosing factory initialised from
+    `info[<carried key>]` (a snapshot taken when the stepper was built); (b) in every function that
+    passes carried data to a hook / compiled stepper the argument is read from `info[key]` inside that
+    function, and the returned data is stored to `info[key]` again."""
+    files = [m.rel for m in ix.modules.values() if m.rel.startswith("pde/solvers/") or m.rel == "pde/backends/numba/_solvers.py"]
+    n_use = 0
+    for rel in sorted(files):
+        m = ix.modules[rel]
+        for f in m.functions.values():
+            # (a) snapshots in factories
+            snap = {}
+            for st in f.node.body if isinstance(f.node, ast.FunctionDef) else []:
+                if isinstance(st, ast.Assign) and len(st.targets) == 1 and isinstance(st.targets[0], ast.Name) and _info_key(st.value) in CARRIED_KEYS:
+                    snap[st.targets[0].id] = (_info_key(st.value), st.lineno)
+            if snap:
+                for g in f.nested():
+                    local = {a.arg for a in g.node.args.args + g.node.args.kwonlyargs}
+                    for x in ast.walk(g.node):
+                        if isinstance(x, (ast.Assign, ast.AnnAssign, ast.AugAssign)):
+                            for t in ast.walk(x.targets[0] if isinstance(x, ast.Assign) else x.target):
+                                if isinstance(t, ast.Name) and isinstance(t.ctx, ast.Store):
+                                    local.add(t.id)
+                    for x in ast.walk(g.node):
+                        if isinstance(x, ast.Name) and isinstance(x.ctx, ast.Load) and x.id in snap and x.id not in local:
+                            key, line = snap[x.id]
+                            rep.violation(
+                                "C07.carried-state",
+                                f"{g.ref}::{key}::snapshot",
+                                f"`{x.id}` is read inside `{g.qualname}` but was bound once, when the stepper was built, to `info[{key!r}]` (line {line}): every call of the stepper "
+                                f"(one per tracker segment) starts from that stale value, so the state depends on how often trackers interrupt the run",
+                                line=x.lineno,
+                            )
+                            break
+            # (b) uses
+            own_nodes = [x for x in ast.walk(f.node)]
+            nested_nodes = {id(y) for g in f.nested() for y in ast.walk(g.node)}
+            for c in own_nodes:
+                if id(c) in nested_nodes or not isinstance(c, ast.Call):
+                    continue
+                for key in CARRIED_KEYS:
+                    arg = next((k.value for k in c.keywords if k.arg == key), None)
+                    if arg is None and dotted(c.func).split(".")[-1] in ("post_step_hook", "compiled_stepper"):
+                        cands = [a for a in c.args if _info_key(a) == key or (isinstance(a, ast.Name) and a.id == key)]
+                        arg = cands[0] if cands else None
+                    if arg is None:
+                        continue
+                    # jit-compiled kernels thread the data through their parameters
+                    fparams = {a.arg for a in f.node.args.args + f.node.args.kwonlyargs}
+                    if isinstance(arg, ast.Name) and arg.id in fparams:
+                        continue
+                    n_use += 1
+                    ok_read = _info_key(arg) == key
+                    if isinstance(arg, ast.Name):
+                        defs = [st for st in ast.walk(f.node) if id(st) not in nested_nodes and isinstance(st, ast.Assign) and any(isinstance(t, ast.Name) and t.id == arg.id for t in st.targets)]
+                        ok_read = bool(defs) and all(_info_key(d.value) == key for d in defs)
+                    # the updated data goes back to info[key]: the call is (part of) the value of an assignment with such a target
+                    stores = [st for st in ast.walk(f.node) if id(st) not in nested_nodes and isinstance(st, ast.Assign) and any(y is c for y in ast.walk(st.value))]
+                    ok_store = any(any(_info_key(t) == key for tt in st.targets for t in ast.walk(tt)) for st in stores)
+                    rep.oblige(f"{f.ref}: {key} read from info at each call and stored back ({ast.unparse(c.func)})", ok_read and ok_store, {"argument": ast.unparse(arg), "stored back": ok_store})
+                    if not ok_read:
+                        rep.violation("C07.carried-state", f"{f.ref}::{key}::read", f"`{ast.unparse(c)[:90]}` receives `{ast.unparse(arg)}`, which is not read from `info[{key!r}]` inside `{f.qualname}` at each call", line=c.lineno)
+                    if not ok_store:
+                        rep.violation("C07.carried-state", f"{f.ref}::{key}::store", f"the data returned by `{ast.unparse(c.func)}` is not stored back to `info[{key!r}]` in `{f.qualname}`: the next stepper call starts from the old value", line=c.lineno)
+    rep.floor("stepper functions handing carried data to a hook / compiled stepper", n_use, 8)
+
+
 def check(tier: str) -> Report:
     rep = Report("C07", tier, "other", "static: ownership/alias/effect rules on syntax + CFG reaching definitions; sympy closed forms of the stepping loops")
     rep.explanation = (
@@ -1020,6 +1105,7 @@ def check(tier: str) -> Report:
     check_time_flow(rep, ix)
     check_fixed_steppers(rep, ix, tier)
     check_tracker_effects(rep, ix)
+    check_carried_state(rep, ix)
     rep.assumptions += [
         "user supplied callables (CallbackTracker/DataTracker functions, transformations, evolution_rate, title) do not modify the field they are shown",
         "FieldBase.copy returns an independent object (C15)",
